@@ -109,10 +109,11 @@ Derive(td) ==
   ELSE IF td.shape \in {"struct", "tuple"}
   THEN LET fs == FieldSeq(td, td.fields, "f") IN WithDocs(LevelOf(fs.named, TailOf(fs.pos), td.version, ""), td)
   ELSE IF td.shape = "cmdstruct"
-  THEN \* a type that is a subcommand by itself: the command is named after the type, in kebab-case
+  THEN \* a type that is a subcommand by itself: the command is named after the type, in kebab-case, unless
+       \* `command("name")` names it
        LET fs == FieldSeq(td, td.fields, "f") IN
        LevelOf(<<>>, [kind |-> "cmd", optional |-> FALSE, else_pos |-> <<>>,
-                      cmds |-> <<[names |-> <<Kebab(td.tchars)>>, shorts |-> <<>>, adjacent |-> FALSE, help |-> td.help,
+                      cmds |-> <<[names |-> <<IF td.cmdname # "" THEN td.cmdname ELSE Kebab(td.tchars)>>, shorts |-> <<>>, adjacent |-> FALSE, help |-> td.help,
                                   nchars |-> <<>>, level |-> LevelOf(fs.named, TailOf(fs.pos), FALSE, td.help)]>>],
                FALSE, "")
   ELSE IF \A k \in DOMAIN td.variants : td.variants[k].command
@@ -121,7 +122,7 @@ Derive(td) ==
                [kind |-> "cmd", optional |-> FALSE, else_pos |-> <<>>,
                 cmds |-> [k \in DOMAIN td.variants |->
                             LET v == td.variants[k]  fs == FieldSeq(td, v.fields, "c" \o ToString(k)) IN
-                            [names |-> <<Kebab(v.chars)>>, shorts |-> <<>>, adjacent |-> FALSE, help |-> v.help,
+                            [names |-> <<IF v.cmdname # "" THEN v.cmdname ELSE Kebab(v.chars)>>, shorts |-> <<>>, adjacent |-> FALSE, help |-> v.help,
                              nchars |-> <<>>, level |-> LevelOf(fs.named, TailOf(fs.pos), FALSE, v.help)]]],
                td.version, "")
   ELSE \* a choice: unit variants are required flags, struct variants groups of their fields
